@@ -151,11 +151,34 @@ fn observe(d: &CoreDocument) -> Model {
   }
 }
 
-pub fn document_ops(_cex: &Value) -> Result<String, String> {
+fn tag(op: Op) -> &'static str {
+  match op {
+    Op::InsertMethod(..) => "[insert]",
+    Op::RemoveMethod(..) => "[remove]",
+    Op::Attach(..) => "[attach]",
+    Op::Detach(..) => "[detach]",
+    Op::InsertService(..) => "[insert-service]",
+    Op::RemoveService(..) => "[remove-service]",
+  }
+}
+
+pub fn document_ops(cex: &Value) -> Result<String, String> {
+  let only: Option<String> = cex.get("only").and_then(Value::as_str).map(str::to_owned);
   let r = no_panic(|| -> Vec<String> {
     let mut log = Vec::new();
     // universe A: 2 ids x 2 relationships to depth 3; universe B: 3 ids (one of a foreign DID) x 5 relationships to depth 2
-    for (n_ids, n_rels, depth) in [(2usize, 2usize, 3usize), (3, 5, 2), (1, 5, 3)] {
+    // universes C/D start from directed prefixes: a general-purpose method referenced from two relationships (then every
+    // operation, in particular its removal), and two general-purpose methods of different DIDs sharing a fragment
+    let mut universes: Vec<(usize, usize, usize, Vec<Op>)> = vec![(2, 2, 3, vec![]), (3, 5, 2, vec![]), (1, 5, 3, vec![])];
+    for r1 in 0..5 {
+      for r2 in (r1 + 1)..5 {
+        universes.push((1, 5, 2, vec![Op::InsertMethod(0, 0), Op::Attach(0, r1), Op::Attach(0, r2)]));
+      }
+    }
+    universes.push((1, 5, 1, vec![Op::InsertMethod(0, 0), Op::Attach(0, 0), Op::Attach(0, 1), Op::Attach(0, 2), Op::Attach(0, 3), Op::Attach(0, 4)]));
+    universes.push((3, 5, 2, vec![Op::InsertMethod(0, 0), Op::InsertMethod(2, 0)]));
+    universes.push((3, 5, 2, vec![Op::InsertMethod(2, 0), Op::InsertMethod(0, 0)]));
+    for (n_ids, n_rels, depth, prefix) in universes {
     let mut ops = Vec::new();
     for i in 0..n_ids {
       for sc in 0..=n_rels {
@@ -171,7 +194,12 @@ pub fn document_ops(_cex: &Value) -> Result<String, String> {
     }
     let did = CoreDID::parse("did:example:doc").unwrap();
     let empty = CoreDocument::builder(Object::new()).id(did).build().unwrap();
-    let mut frontier: Vec<(CoreDocument, Model, Vec<Op>)> = vec![(empty, Model { gm: vec![], rel: Default::default(), svc: vec![] }, vec![])];
+    let (mut d0, mut m0) = (empty, Model { gm: vec![], rel: Default::default(), svc: vec![] });
+    for op in &prefix {
+      apply_doc(&mut d0, *op);
+      apply_model(&mut m0, *op);
+    }
+    let mut frontier: Vec<(CoreDocument, Model, Vec<Op>)> = vec![(d0, m0, prefix.clone())];
     for _depth in 0..depth {
       let mut next = Vec::new();
       for (d, m, hist) in &frontier {
@@ -183,21 +211,21 @@ pub fn document_ops(_cex: &Value) -> Result<String, String> {
           let mut h = hist.clone();
           h.push(*op);
           if got != want {
-            log.push(format!("history {h:?}: operation {} although the model {}", if got { "succeeded" } else { "was refused" }, if want { "accepts it" } else { "refuses it" }));
+            log.push(format!("{} history {h:?}: operation {} although the model {}", tag(*op), if got { "succeeded" } else { "was refused" }, if want { "accepts it" } else { "refuses it" }));
             continue;
           }
           if !got && d2.to_json().unwrap() != before {
-            log.push(format!("history {h:?}: refused operation changed the document"));
+            log.push(format!("{} history {h:?}: refused operation changed the document", tag(*op)));
           }
           if observe(&d2) != m2 {
-            log.push(format!("history {h:?}: document {:?}, model {m2:?}", observe(&d2)));
+            log.push(format!("{} history {h:?}: document {:?}, model {m2:?}", tag(*op), observe(&d2)));
             continue;
           }
           // invariants + round trip + resolution
           let json = d2.to_json().unwrap();
           match CoreDocument::from_json(&json) {
             Ok(back) if back == d2 => {}
-            _ => log.push(format!("history {h:?}: document does not survive its own JSON")),
+            _ => log.push(format!("{} [json] history {h:?}: document does not survive its own JSON", tag(*op))),
           }
           for (i, idstr) in ids().iter().enumerate() {
             let frag = format!("#{}", DIDUrl::parse(idstr).unwrap().fragment().unwrap());
@@ -206,23 +234,41 @@ pub fn document_ops(_cex: &Value) -> Result<String, String> {
             let own = idstr.starts_with("did:example:doc#");
             let shares_fragment = ids().iter().any(|o| o != idstr && o.ends_with(&frag) && (m2.gm.contains(o) || m2.svc.contains(o) || m2.rel.iter().any(|r| r.iter().any(|(x, _)| x == o))));
             for q in [idstr.as_str(), frag.as_str()] {
+              // whatever a query resolves to under a scope has to be a member of that scope's set (also for fragments
+              // shared between DIDs, where the first match in set order wins)
+              for r in 0..5 {
+                if let Some(found) = d2.resolve_method(q, Some(MethodScope::VerificationRelationship(RELS[r]))) {
+                  let fid = found.id().to_string();
+                  if !m2.rel[r].iter().any(|(x, _)| x == &fid) {
+                    log.push(format!("[resolve] history {h:?}: resolve_method({q:?}, {:?}) returned {fid}, which does not carry that relationship", RELS[r]));
+                  }
+                  if !fid.ends_with(&frag) {
+                    log.push(format!("[resolve] history {h:?}: resolve_method({q:?}, {:?}) returned {fid}", RELS[r]));
+                  }
+                }
+              }
+              if let Some(found) = d2.resolve_method(q, Some(MethodScope::VerificationMethod)) {
+                if !m2.gm.contains(&found.id().to_string()) {
+                  log.push(format!("[resolve] history {h:?}: resolve_method({q:?}, VerificationMethod) returned a method outside verificationMethod"));
+                }
+              }
               if q == frag.as_str() && (!own || shares_fragment) {
                 continue;
               }
               if d2.resolve_method(q, None).is_some() != any {
-                log.push(format!("history {h:?}: resolve_method({q:?}, None) = {}", !any));
+                log.push(format!("[resolve] history {h:?}: resolve_method({q:?}, None) = {}", !any));
               }
               if d2.resolve_method(q, Some(MethodScope::VerificationMethod)).is_some() != m2.gm.contains(idstr) {
-                log.push(format!("history {h:?}: resolve_method({q:?}, VerificationMethod) wrong"));
+                log.push(format!("[resolve] history {h:?}: resolve_method({q:?}, VerificationMethod) wrong"));
               }
               for r in 0..5 {
                 let want = m2.rel[r].iter().any(|(x, _)| x == idstr) && any;
                 if d2.resolve_method(q, Some(MethodScope::VerificationRelationship(RELS[r]))).is_some() != want {
-                  log.push(format!("history {h:?}: resolve_method({q:?}, {:?}) wrong", RELS[r]));
+                  log.push(format!("[resolve] history {h:?}: resolve_method({q:?}, {:?}) wrong", RELS[r]));
                 }
               }
               if d2.resolve_service(q).is_some() != m2.svc.contains(idstr) {
-                log.push(format!("history {h:?}: resolve_service({q:?}) wrong"));
+                log.push(format!("[resolve] history {h:?}: resolve_service({q:?}) wrong"));
               }
             }
             let _ = i;
@@ -240,7 +286,13 @@ pub fn document_ops(_cex: &Value) -> Result<String, String> {
   });
   match r {
     Err(msg) => Ok(format!("document operations panicked: {msg}")),
-    Ok(log) if !log.is_empty() => Ok(format!("{} deviations, e.g. {}", log.len(), log[..log.len().min(3)].join("; "))),
-    Ok(_) => Err("document operations battery: all expectations met".to_owned()),
+    Ok(log) => {
+      let log: Vec<String> = log.into_iter().filter(|l| only.as_ref().map(|o| l.contains(o.as_str())).unwrap_or(true)).collect();
+      if log.is_empty() {
+        Err("document operations battery: all expectations met".to_owned())
+      } else {
+        Ok(format!("{} deviations, e.g. {}", log.len(), log[..log.len().min(3)].join("; ")))
+      }
+    }
   }
 }
